@@ -16,6 +16,7 @@ func checkC06(c *Ctx, r *Report) {
 	r.Explanation = "R1 PROVENANCE on the emitted constants (ERROR_ACTION/ACCEPT_ACTION holes must be filled by the producers that also fill the table cells, in every backend); R4 on the two producers (len(states)+positive distinct constants); R4/R2 on every Go skeleton's driver loop (error class → panic whose text starts with `Grammar error`, no push / token fetch / reduce on that path; accept returns without pushing; both codes are tested before the sign test); bounds-guard dominance in the packed Action reader; TypeScript driver by token-tree rules. Not decided: that the first bad token is detected on particular inputs (needs exact tables: C03, C05) and termination of reduce sequences."
 	r.Assumptions = append(r.Assumptions, "user-supplied GetToken and semantic actions do not panic", "generated tables are exact (C03, C05)")
 	st := c.GetStaged()
+	stagedErrors(r, "C06", st)
 	c06a(c, r, st)
 	c06b(c, r)
 	c06c(c, r, st)
